@@ -60,6 +60,8 @@ pub struct Handler {
     pub ue: Vec<u8>,
     pub p: i32,
     pub encrypt_metadata: bool,
+    /// spelling of the key length in the dictionary of a V 4 document: "plain" | "cf-length-bits" | "cf-no-length" | "no-length"
+    pub dict_form: String,
     iv_counter: std::cell::Cell<u8>,
 }
 
@@ -123,7 +125,7 @@ impl Handler {
                 x.extend_from_slice(&[0u8; 16]);
                 x
             };
-            Handler { var, key, o, u, oe: vec![], ue: vec![], p, encrypt_metadata, iv_counter: Default::default() }
+            Handler { var, key, o, u, oe: vec![], ue: vec![], p, encrypt_metadata, dict_form: "plain".into(), iv_counter: Default::default() }
         } else {
             // Algorithms 8 and 9 (R6) and their SHA-256 predecessors (R5)
             let key: Vec<u8> = (0..32u8).map(|i| i.wrapping_mul(37).wrapping_add(11)).collect();
@@ -137,7 +139,7 @@ impl Handler {
             let mut o = hash(owner, ovs, &u);
             o.extend_from_slice(ovs); o.extend_from_slice(oks);
             let oe = aes256_nopad(&hash(owner, oks, &u), &key);
-            Handler { var, key, o, u, oe, ue, p, encrypt_metadata, iv_counter: Default::default() }
+            Handler { var, key, o, u, oe, ue, p, encrypt_metadata, dict_form: "plain".into(), iv_counter: Default::default() }
         }
     }
 
@@ -180,10 +182,13 @@ impl Handler {
     /// body of the /Encrypt dictionary
     pub fn dict(&self) -> String {
         let hex = |d: &[u8]| d.iter().map(|b| format!("{:02X}", b)).collect::<String>();
-        let mut s = format!("<< /Filter /Standard /V {} /R {} /Length {} /P {} /O <{}> /U <{}>", self.var.v, self.var.r, self.var.bits, self.p, hex(&self.o), hex(&self.u));
+        let form = self.dict_form.as_str();
+        let top_len = if form == "no-length" { String::new() } else { format!(" /Length {}", self.var.bits) };
+        let mut s = format!("<< /Filter /Standard /V {} /R {}{} /P {} /O <{}> /U <{}>", self.var.v, self.var.r, top_len, self.p, hex(&self.o), hex(&self.u));
         if self.var.v >= 4 {
             let cfm = match self.var.method { "RC4" => "V2", m => m };
-            s += &format!(" /CF << /StdCF << /Type /CryptFilter /CFM /{} /AuthEvent /DocOpen /Length {} >> >> /StmF /StdCF /StrF /StdCF", cfm, self.var.bits / 8);
+            let cf_len = match form { "cf-length-bits" => format!(" /Length {}", self.var.bits), "cf-no-length" | "no-length" => String::new(), _ => format!(" /Length {}", self.var.bits / 8) };
+            s += &format!(" /CF << /StdCF << /Type /CryptFilter /CFM /{} /AuthEvent /DocOpen{} >> >> /StmF /StdCF /StrF /StdCF", cfm, cf_len);
         }
         if self.var.r >= 5 { s += &format!(" /OE <{}> /UE <{}> /Perms <{}>", hex(&self.oe), hex(&self.ue), hex(&[0u8; 16])); }
         if !self.encrypt_metadata { s += " /EncryptMetadata false"; }
